@@ -207,7 +207,7 @@ fn strategy() -> BoxedStrategy<Case> {
             let w = cfg.kind.memory(n).unwrap();
             let extra = prop_oneof![3 => Just(0usize), 1 => Just(1usize), 1 => Just(2usize), 1 => Just(n), 2 => 0..=(3 * n)];
             let spike = prop_oneof![1 => Just(1.0f64), 1 => Just(1e6f64), 1 => Just(1e3f64)];
-            (Just(cfg), any::<bool>(), bar_stream(false, 0, 300), spike, vec(0.0f64..1.0, 1..=8), extra.prop_flat_map(move |e| prop_oneof![bar_stream(false, w + e, w + e), bar_stream(true, w + e, w + e)]))
+            (Just(cfg), any::<bool>(), prop_oneof![3 => bar_stream(false, 0, 300), 1 => flat_bar_stream(false, 0, 300)], spike, vec(0.0f64..1.0, 1..=8), extra.prop_flat_map(move |e| prop_oneof![2 => bar_stream(false, w + e, w + e), 2 => bar_stream(true, w + e, w + e), 1 => flat_bar_stream(false, w + e, w + e), 1 => flat_bar_stream(true, w + e, w + e)]))
         })
         .prop_map(|(cfg, scalar, pre, spike, where_, suf)| {
             let mut prefix = pre.bars;
